@@ -27,24 +27,46 @@ def shift (id : String) (dx dy dv : Int) : String :=
   | none => ""
   | some e => (shiftE e dx dy dv).id
 
+/-! The neighbourhood queries call `GetShiftingSpatialID` on ID *strings* (and `Get26…` re-parses the
+strings it has just printed).  The model parses once and works on the parsed voxel; a malformed ID makes
+every shift return `""`, so the Go functions return 6, 8 and 26 empty strings. -/
+
 /-- `Get6spatialIdsAdjacentToFaces`, in the Go order -/
-def n6 (id : String) : List String :=
-  [-1, 1].flatMap fun (s : Int) => [shift id s 0 0, shift id 0 s 0, shift id 0 0 s]
+def n6E (e : Ext) : List Ext :=
+  [-1, 1].flatMap fun (s : Int) => [shiftE e s 0 0, shiftE e 0 s 0, shiftE e 0 0 s]
 
 /-- `Get8spatialIdsAroundHorizontal` -/
-def n8 (id : String) : List String :=
-  [-1, 1].flatMap fun (s : Int) => [shift id s 0 0, shift id 0 s 0, shift id s s 0, shift id s (-s) 0]
+def n8E (e : Ext) : List Ext :=
+  [-1, 1].flatMap fun (s : Int) => [shiftE e s 0 0, shiftE e 0 s 0, shiftE e s s 0, shiftE e s (-s) 0]
 
 /-- `Get26spatialIdsAroundVoxel` -/
-def n26 (id : String) : List String :=
+def n26E (e : Ext) : List Ext :=
   [-1, 0, 1].flatMap fun (s : Int) =>
-    let vs := shift id 0 0 s
-    (if s ≠ 0 then [vs] else []) ++ n8 vs
+    let vs := shiftE e 0 0 s
+    (if s ≠ 0 then [vs] else []) ++ n8E vs
+
+def n6 (id : String) : List String :=
+  match parseExt id with
+  | none => List.replicate 6 ""
+  | some e => (n6E e).map Ext.id
+
+def n8 (id : String) : List String :=
+  match parseExt id with
+  | none => List.replicate 8 ""
+  | some e => (n8E e).map Ext.id
+
+def n26 (id : String) : List String :=
+  match parseExt id with
+  | none => List.replicate 26 ""
+  | some e => (n26E e).map Ext.id
 
 /-- the offsets of `GetNspatialIdsAroundVoxcels` in loop order (x outer, y, v inner), `(0,0,0)` skipped -/
 def nOffsets (H V : Int) : List (Int × Int × Int) :=
   (irange (-H) H).flatMap fun dx => (irange (-H) H).flatMap fun dy =>
     (irange (-V) V).filterMap fun dv => if dx = 0 ∧ dy = 0 ∧ dv = 0 then none else some (dx, dy, dv)
+
+def nNE (es : List Ext) (H V : Int) : List Ext :=
+  dedup ((nOffsets H V).flatMap fun o => es.map fun e => shiftE e o.1 o.2.1 o.2.2)
 
 /-- `GetNspatialIdsAroundVoxcels` (after the fix: malformed IDs are rejected up front). -/
 def nN (ids : List String) (H V : Int) : Outcome (List String) :=
@@ -52,6 +74,6 @@ def nN (ids : List String) (H V : Int) : Outcome (List String) :=
   match parseAll ids with
   | none => .err
   | some es =>
-    .ok ((dedup ((nOffsets H V).flatMap fun o => es.map fun e => shiftE e o.1 o.2.1 o.2.2)).map Ext.id)
+    .ok ((nNE es H V).map Ext.id)
 
 end SpatialId
